@@ -93,10 +93,12 @@ def register(M):
     M("M_C10_x13", ["C10"], "cotengra/pathfinders/path_basic.py",
       "            if (nterms is not None) and (i >= nterms):",
       "            if (nterms is not None) and (i > nterms):",
-      "is_ssa_path: the first intermediate id (== nterms) no longer proves ssa (is_ssa_true)", ["tests/test_paths_basic.py"])
+      "harmless since repair 157dfec: the id == nterms shortcut is missed, but a valid ssa path never reuses an id, so the "
+      "repaired function still ends in True (was CAUGHT by is_ssa_true before the repair; M_C10_r1 validates is_ssa_true now)",
+      ["tests/test_paths_basic.py"], harmless=True)
     M("M_C10_x14", ["C10"], "cotengra/pathfinders/path_basic.py",
-      "            seen.add(i)\n            if i in seen:\n                # id reused -> not ssa\n                return False",
-      "            seen.add(i)\n            if i in seen:\n                # id reused -> not ssa\n                return True",
+      "            if i in seen:\n                # id reused -> not ssa\n                return False",
+      "            if i in seen:\n                # id reused -> not ssa\n                return True",
       "is_ssa_path answers the wrong way round when an id is reused: linear paths are called ssa (is_ssa_false)", ["tests/test_paths_basic.py"])
     M("M_C10_x15", ["C10"], "cotengra/utils.py",
       "            new_optimize = tuple(ind_map[ind] for ind in optimize)",
@@ -142,3 +144,16 @@ def register(M):
       "    return f\"{','.join(map(''.join, inputs))}->{''.join(output)}\"",
       "    return f\"{','.join(filter(None, map(''.join, inputs)))}->{''.join(output)}\"",
       "inputs_output_to_eq leaves scalar terms out of the equation (eq_getters: get_eq of an unsliced tree)", ["tests/test_interface.py"])
+    # ---- reverts of the repairs of FINDINGS_widen-a.md #1-#3 (the classes are generated again) ----
+    M("M_C10_r1", ["C10"], "cotengra/pathfinders/path_basic.py",
+      "            if i in seen:\n                # id reused -> not ssa\n                return False\n            seen.add(i)\n    # no id was ever reused\n    return True\n",
+      "            seen.add(i)\n            if i in seen:\n                # id reused -> not ssa\n                return False\n",
+      "revert 157dfec: is_ssa_path records the id before testing for reuse - every ssa path whose last step starts with an input id is called not-ssa (is_ssa_true / is_ssa_true_input_id_first)", ["tests/test_paths_basic.py"])
+    M("M_C10_r2", ["C10"], "cotengra/utils.py",
+      "    return (\n        isinstance(optimize, (list, tuple))\n        and len(optimize) > 0\n        and isinstance(optimize[0], (int, str))\n    )",
+      "    return isinstance(optimize, (list, tuple)) and isinstance(\n        optimize[0], (int, str)\n    )",
+      "revert f2a0970: is_edge_path indexes an empty explicit path - IndexError under canonicalize=True (iface_empty_path_canonicalize)", ["tests/test_interface.py"])
+    M("M_C10_r3", ["C10"], "cotengra/core.py",
+      "            ssa_path = linear_to_ssa(path, len(inputs))",
+      "            ssa_path = linear_to_ssa(path)",
+      "revert b769cc4: ContractionTreeCompressed.from_path guesses the number of tensors of an incomplete linear path (compressed_prefix_linear)", ["tests/test_tree.py"])
